@@ -96,7 +96,42 @@ class Ctx(object):
                     rel, qual = name.split("::", 1)
                     if (rel, qual) not in done and (rel, qual) in self.contracts:
                         todo.append((rel, qual))
+        self._override_census(done)
         return obs
+
+    def _override_census(self, verified):
+        """a method under contract that a subclass re-defines without a contract of its own: calls on instances of that
+        subclass run the override, which nothing here has looked at -> reported as unreached (the bounded part decides)"""
+        try:
+            ex = self.executor()
+            by_method = {}
+            for (rel, qual) in verified:
+                if "." in qual:
+                    c_, m_ = qual.split(".", 1)
+                    by_method.setdefault(m_, set()).add(c_)
+            have = {q.split(".", 1)[0] + "." + q.split(".", 1)[1] for (_, q) in self.contracts if "." in q}
+            seen = getattr(self, "_override_seen", set())
+            skip = ("__init__", "__new__", "structure")     # (structure() literals of the kits: kind-C obligations on every concrete class)
+            for mi in self.repo.modules.values():
+                for cname, ci in mi.classes.items():
+                    mro = [c for c in ex.kind_mro(cname) if hasattr(c, "methods")]
+                    names = [c.name for c in mro]
+                    for m_, owners in by_method.items():
+                        if m_ in skip or not any(o in names for o in owners):
+                            continue
+                        # the definition python picks for instances of this class: the first one along its MRO
+                        first = next((c for c in mro if m_ in c.methods), None)
+                        if first is None or first.name in owners or "%s.%s" % (first.name, m_) in have:
+                            continue
+                        key = (first.name, m_)
+                        if key not in seen:
+                            seen.add(key)
+                            self.fun_info.append(dict(function="%s::%s.%s" % (first.module.relpath, first.name, m_),
+                                                      unreached="is what instances of %s run instead of %s.%s, which is under contract, and has no contract of its own" % (
+                                                          cname, sorted(o for o in owners if o in names)[0], m_)))
+            self._override_seen = seen
+        except Exception:
+            pass
 
     def part(self, fn, label=None):
         """one group of property-level obligations (lemmas, literal tables, census ...): a crash of its generator on a
